@@ -357,7 +357,7 @@ def _register_from():
                     ctx.prove("post.additional_line_added_at_len(code)_before_the_shift", z3.BoolVal(len(aal) == 1 and aal[0][1] == "ADDITIONAL-LINE" and aal[0][2] == 6 and order.index("add_additional_line") < order.index("modify_line_offsets")))
                 b2b = [e for e in log if e[0] == "blocks_to_bytes"][0][1]
                 ctx.prove("post.blocks_to_bytes_receives(blocks, additional_args, freevars, type)", z3.BoolVal(b2b == ("BLOCKS", "ADDL", cd.freevars, tp)))
-        harness("glue.from_code_data.modular[kind=%s,va=%d,vk=%d,free=%d,ann=%d,nested=%d]" % (kind, va, vk, free, annotations, nested), props=["C01", "C03", "C11"],
+        harness("glue.from_code_data.modular[kind=%s,va=%d,vk=%d,free=%d,ann=%d,nested=%d]" % (kind, va, vk, free, annotations, nested), props=["C01", "C03", "C11", "C10", "C05"],
                 functions=["code_data._code_data.from_code_data"], configs="all", cost=1,
                 assumes=["callee contracts: blocks_to_bytes, args_to_input, from_flags_data, from_line_mapping, types.CodeType as a record constructor"],
                 notes="complete case split over the data's kind/flags with symbolic counts and first line: CodeType receives exactly the described header, flag set and tables")(h)
